@@ -1,6 +1,6 @@
-from xeng import progs2
+from xeng import progs, progs2, progs3
 from . import _common
 
 
 def run(out):
-    _common.run(out, 'C07', x_corpora=[(progs2.c07_corpus, 'c07')], s_props=['C07'])
+    _common.run(out, 'C07', x=[dict(fn=progs2.c07_corpus, name='c07')], s_props=['C07'])
